@@ -19,8 +19,8 @@ import shutil
 PROPERTY = "C20"
 REPLICAS = 2
 TIERS = {
-    "quick": dict(seeds=160, soft_s=170, hard_s=600, per_seed_s=300, init_s=300, k=2),
-    "thorough": dict(seeds=16000, soft_s=3000, hard_s=4200, per_seed_s=400, init_s=300, k=4),
+    "quick": dict(seeds=160, soft_s=170, hard_s=1500, per_seed_s=900, init_s=600, k=2),
+    "thorough": dict(seeds=16000, soft_s=3000, hard_s=5400, per_seed_s=1200, init_s=600, k=4),
 }
 RULE = ("one evaluation = one complete mapper run (map_workload_to_arch, or make_pmappings+join_pmappings, "
         "or a cache_dir history step) of a generated 1-3 Einsum spec under one seeded schedule. A scenario is "
@@ -267,6 +267,20 @@ def exec_compare_run(sc, cfg, tape, workdir, ref_front):
     return {}, rr
 
 
+def exec_prefix(sc, last_tape_values, workdir, ref_front):
+    """Runs sc["runs"][:-1] under their own seeded tapes (results ignored: they only build the
+    process history), then the last run under the given tape values; returns its verdict."""
+    from sim import common
+    for cfg in sc["runs"][:-1]:
+        exec_compare_run(sc, cfg, _mk_tape(cfg), workdir, ref_front)
+        common.purge_scratch()
+    cfg = sc["runs"][-1]
+    t = _mk_tape(cfg, replay=last_tape_values)
+    cl, rr = exec_compare_run(sc, cfg, t, workdir, ref_front)
+    common.purge_scratch()
+    return cl, rr, t
+
+
 def reference_run(sc, workdir):
     body, variant = _body_for(sc)
     tape = _mk_tape(None)
@@ -320,10 +334,6 @@ def run_seed(seed, ctx):
     if ctx.get("role", 0) == 1:  # replica under another PYTHONHASHSEED: reference digest only
         res["events_sha"] = canon.sha(first)
         return res
-    if ref.wall > float(ctx["cfg"].get("max_ref_s", 12)):
-        bump({"too_slow_scenarios": 1})
-        res["events_sha"] = canon.sha(first)
-        return res
     shas = [canon.sha(first)]
     for j, cfg in enumerate(sc["runs"]):
         tape = _mk_tape(cfg)
@@ -342,26 +352,26 @@ def run_seed(seed, ctx):
             vclass, detail = next(iter(classes.items()))
 
             def runner(sc2, tv):
-                cfg2 = sc2["runs"][0]
-                t = _mk_tape(cfg2, replay=tv)
-                cl, _ = exec_compare_run(sc2, cfg2, t, workdir, ref_front)
-                common.purge_scratch()
+                cl, _, t = exec_prefix(sc2, tv, workdir, ref_front)
                 return set(cl), t.values()
 
-            sc1 = dict(sc, runs=[cfg])
+            # the cache state a run starts from is the history of this scenario (reference, then the
+            # runs before it): the replay carries that prefix and the minimiser tries to drop it
+            sc1 = dict(sc, runs=sc["runs"][:j + 1])
             msc, mtv, nruns = minimize(sc1, tape.values(), runner, vclass, _simplify_run,
                                        max_runs=40, max_s=float(ctx["cfg"].get("minimize_s", 90)),
                                        group_by_site=True)
-            cfgm = msc["runs"][0]
-            t = _mk_tape(cfgm, replay=mtv)
-            cl, rrm = exec_compare_run(msc, cfgm, t, workdir, ref_front)
-            common.purge_scratch()
+            cfgm = msc["runs"][-1]
+            cl, rrm, t = exec_prefix(msc, mtv, workdir, ref_front)
             sites = sorted(set(_call_sites_perturbed(rrm.sim))) if cl else []
             site_key = ",".join(sites) if sites else f"W={cfgm['W']}"
-            res["violations"].append(_violation(
+            v = _violation(
                 vclass, site_key, (cl.get(vclass) or detail) + f" [perturbed fan-ins in minimised run: "
-                f"{sites}; W={cfgm['W']}; cache_mode={cfgm['cache_mode']}]", msc, 0, cfgm, t,
-                {"minimize_runs": nruns, "original_tape_nonzero": len(tape.nonzero_positions())}))
+                f"{sites}; W={cfgm['W']}; cache_mode={cfgm['cache_mode']}; runs replayed before it: "
+                f"{len(msc['runs']) - 1}]", msc, 0, cfgm, t,
+                {"minimize_runs": nruns, "original_tape_nonzero": len(tape.nonzero_positions())})
+            v["replay"]["scenario"]["runs"] = msc["runs"]
+            res["violations"].append(v)
     res["events_sha"] = hashlib.sha1("".join(shas).encode()).hexdigest()
     if seed % 7 == 0 and ctx.get("role", 0) == 0:
         res["sample"] = {"seed": seed, "spec_params": sc["params"], "mode": sc["mode"],
@@ -373,10 +383,16 @@ def run_seed(seed, ctx):
 
 
 def _simplify_run(sc):
-    cfg = sc["runs"][0]
+    runs = sc["runs"]
+    # drop history first
+    if len(runs) > 1:
+        yield dict(sc, runs=runs[-1:])
+        for i in range(len(runs) - 1):
+            yield dict(sc, runs=runs[:i] + runs[i + 1:])
+    cfg = runs[-1]
 
     def w(**kw):
-        return dict(sc, runs=[dict(cfg, **kw)])
+        return dict(sc, runs=runs[:-1] + [dict(cfg, **kw)])
     if cfg["clock_jumpy"]:
         yield w(clock_jumpy=False)
     if cfg["cache_mode"] != "keep":
@@ -418,9 +434,7 @@ def replay(rp, ctx):
             if c:
                 viols.append({"class": f"history_{c[0]}", "key": "", "detail": c[1]})
         return {"violations": viols, "events_sha": ref.tape.event_digest()}
-    cfg = sc["runs"][0]
-    t = _mk_tape(cfg, replay=rp["tape"])
-    classes, rr = exec_compare_run(sc, cfg, t, workdir, ref.front)
+    classes, rr, t = exec_prefix(sc, rp["tape"], workdir, ref.front)
     for cls, detail in classes.items():
         viols.append({"class": cls, "key": cls, "detail": detail})
     return {"violations": viols, "events_sha": t.event_digest()}
